@@ -382,7 +382,7 @@ fn layered_limits(ctx: &mut Ctx) {
 /// (documented range 1..16, clamped), and the volume best list is one list mixing systems whose levels differ
 fn layered_limits_2(ctx: &mut Ctx) {
     let l1 = "[fractions]\nall = { enabled = true, accuracy = 0.5, max_denominator = 16 }\n";
-    let l2 = "[fractions]\nall = { enabled = true, accuracy = 0.01, max_denominator = 2, max_whole = 3 }\nmetric = { enabled = true, max_denominator = 2 }\nimperial = { enabled = true, max_denominator = 8 }\n[fractions.unit]\ntsp = { max_denominator = 1, max_whole = 5 }\ntbsp = { max_denominator = 0 }\nlb = { max_denominator = 2, max_whole = 7 }\n[fractions.quantity]\nmass = { enabled = true, max_denominator = 4 }\n\n[[quantity]]\nquantity = \"volume\"\nbest = [\"l\", \"cup\"]\n\n[[quantity]]\nquantity = \"time\"\n[quantity.units]\nunspecified = [{ names = [\"glass\"], symbols = [\"gl\"], ratio = 7 }]\n";
+    let l2 = "[fractions]\nall = { enabled = true, accuracy = 0.01, max_denominator = 2, max_whole = 3 }\nmetric = { enabled = true, max_denominator = 2 }\nimperial = { enabled = true, max_denominator = 8 }\n[fractions.unit]\ntsp = { max_denominator = 1, max_whole = 5 }\ntbsp = { max_denominator = 0 }\nl = true\nlb = { max_denominator = 2, max_whole = 7 }\n[fractions.quantity]\nmass = { enabled = true, max_denominator = 4 }\n\n[[quantity]]\nquantity = \"volume\"\nbest = [\"l\", \"cup\"]\n\n[[quantity]]\nquantity = \"time\"\n[quantity.units]\nunspecified = [{ names = [\"glass\"], symbols = [\"gl\"], ratio = 7 }]\n";
     let build = || -> Option<Converter> {
         let a: cooklang::convert::UnitsFile = toml::from_str(l1).ok()?;
         let b: cooklang::convert::UnitsFile = toml::from_str(l2).ok()?;
